@@ -120,13 +120,38 @@ def run(tier, seed):
         res.violation(None, "proof obligations of C15 broken: %s" % detail.get("broken"),
                       {"kind": "proof-obligation", "detail": detail}, no_input=True)
         return res.finish()
+    priv = tempfile.mkdtemp(prefix="shk-c15-bin-")
     try:
+        return _run_with_bins(res, tier, seed, priv)
+    finally:
+        shutil.rmtree(priv, ignore_errors=True)
+
+
+def _private_bins(priv):
+    """Build (or fetch from the cache) both harness binaries for the current
+    tree and copy them to a private directory at once: the shared cache is
+    pruned by other checks running in parallel."""
+    for attempt in range(3):
         bins = vlib.build_bins(["c15"])
         rbins = vlib.build_bins(["c15"], race=True)
+        try:
+            shutil.copy2(bins["c15"], os.path.join(priv, "c15"))
+            shutil.copy2(rbins["c15"], os.path.join(priv, "c15-race"))
+            return {"c15": os.path.join(priv, "c15")}, {"c15": os.path.join(priv, "c15-race")}
+        except OSError:
+            if attempt == 2:
+                raise vlib.BuildError("cache", "built binaries vanished from the shared cache three times")
+    return None
+
+
+def _run_with_bins(res, tier, seed, priv):
+    try:
+        bins, rbins = _private_bins(priv)
     except vlib.BuildError as e:
         res.violation(None, "harness does not build against the current tree",
                       {"kind": "correspondence-build", "what": e.what, "output": e.output[-4000:]}, no_input=True)
         return res.finish()
+    vlib.log("c15: binaries ready")
 
     # ---- controlled schedules
     rc, o, d = _run_harness(bins["c15"], ["-seed", str(seed), "-tier", tier, "-mode", "ctl"], 3000)
@@ -212,9 +237,9 @@ def replay(path):
     if r.get("mode") != "controlled" or not c.get("OpsJ"):
         print("replaying %s by re-running tier %s seed %s" % (path, r.get("tier"), r.get("seed")))
         return run(r.get("tier", "quick"), int(r.get("seed", 1)))
-    bins = vlib.build_bins(["c15"])
     tmp = tempfile.mkdtemp(prefix="shk-c15r-")
     try:
+        bins, _ = _private_bins(tmp)
         inp = os.path.join(tmp, "in.json")
         with open(inp, "w") as f:
             json.dump({"Caps": c["Caps"], "OpsJ": c["OpsJ"]}, f)
